@@ -291,7 +291,7 @@ impl Check for C20 {
             let d = multiline(&mut r, &d);
             emit(Case::with("every-prefix-and-subst", d, &[r.next() as i64]));
         }
-        let n = g.count(40_000, 1_500_000);
+        let n = g.count(60_000, 5_000_000);
         for k in 0..n {
             let d = doc::gen_any(&mut r);
             let d = if k % 2 == 0 { multiline(&mut r, &d) } else { d };
